@@ -11,6 +11,7 @@ pub fn one(ctx: &mut Ctx, input: &str, ext_bits: u32) {
     let desc = format!("ext={ext_bits} input={input:?}");
     let Ok(evs) = guarded(|| PullParser::new(input, ext).collect::<Vec<_>>()) else { ctx.count("panicked (judged by C03)"); return };
     ctx.case(format!("events {ext_bits} {}", enc_text(input)), r_events(&evs), evs.len() > 2, desc.clone());
+    scanner_vs_lexer(ctx, input);
     if evs.iter().any(|e| matches!(e, Event::Error(_))) { ctx.count("has-error-event (premise false)"); return; }
     ctx.count("no-error-event");
     // covered bytes = union of the spans of content events
@@ -24,9 +25,13 @@ pub fn one(ctx: &mut Ctx, input: &str, ext_bits: u32) {
         }
         for (_, s) in spans { for i in s.start()..s.end().min(input.len()) { covered[i] = true; } }
     }
-    // comment bytes from the real lexer's own token stream
+    // comment bytes: the INDEPENDENT character-level scanner over the cooklang body (it is compared with the
+    // lexer's comment tokens in `scanner_vs_lexer`; the two are proved equal on the model, `C05_comment_scanner_agrees`)
     let mut comment = vec![false; input.len() + 1];
-    for (k, a, b) in cooklang::parser::verif_tokens(input) { if k == "LineComment" || k == "BlockComment" { for i in a..b.min(input.len()) { comment[i] = true; } } }
+    if let Some(first) = cooklang::parser::verif_tokens(input).first() {
+        let body_start = first.1;
+        for (i, f) in comment_scan(&input[body_start..]).into_iter().enumerate() { comment[body_start + i] = f; }
+    }
     for (i, c) in input.char_indices() {
         if c.is_alphanumeric() && !comment[i] && !covered[i] {
             ctx.oracle_fail(desc, format!("character {c:?} at byte {i} is outside every event span although the event stream has no error"), "c05:dropped".into());
@@ -35,8 +40,76 @@ pub fn one(ctx: &mut Ctx, input: &str, ext_bits: u32) {
     }
 }
 
+/// The independent comment scanner of `Lemmas/CoverAudit.lean` (`cscan`): one flag per byte of `body`.
+/// A backslash protects the next char; `--` runs up to (not including) the next LF; `[-` runs up to and
+/// including the first `-]` after it, or to the end.
+pub fn comment_scan(body: &str) -> Vec<bool> {
+    #[derive(Clone, Copy, PartialEq)]
+    enum St { Normal, Esc, Line1, Line, Block1, Block, BlockEnd }
+    let chars: Vec<(usize, char)> = body.char_indices().collect();
+    let mut out = vec![false; body.len()];
+    let mut st = St::Normal;
+    for (k, &(i, c)) in chars.iter().enumerate() {
+        let next = chars.get(k + 1).map(|p| p.1);
+        let (flag, st2) = match st {
+            St::Normal => {
+                if c == '\\' { (false, St::Esc) }
+                else if c == '-' && next == Some('-') { (true, St::Line1) }
+                else if c == '[' && next == Some('-') { (true, St::Block1) }
+                else { (false, St::Normal) }
+            }
+            St::Esc => (false, St::Normal),
+            St::Line1 => (true, St::Line),
+            St::Line => if c == '\n' { (false, St::Normal) } else { (true, St::Line) },
+            St::Block1 => (true, St::Block),
+            St::Block => if c == '-' && next == Some(']') { (true, St::BlockEnd) } else { (true, St::Block) },
+            St::BlockEnd => (true, St::Normal),
+        };
+        for b in i..i + c.len_utf8() { out[b] = flag; }
+        st = st2;
+    }
+    out
+}
+
+/// `C05_comment_scanner_agrees` on the real lexer: the bytes of its LineComment/BlockComment tokens are
+/// exactly the bytes the independent scanner flags in the cooklang body.
+fn scanner_vs_lexer(ctx: &mut Ctx, input: &str) {
+    let toks = cooklang::parser::verif_tokens(input);
+    let Some(first) = toks.first() else { return };
+    let body_start = first.1;
+    let scan = comment_scan(&input[body_start..]);
+    let mut lexer = vec![false; input.len() - body_start];
+    for (k, a, b) in &toks { if k == "LineComment" || k == "BlockComment" { for i in *a..(*b).min(input.len()) { lexer[i - body_start] = true; } } }
+    ctx.count("comment-scanner compared with lexer");
+    if scan.iter().any(|&f| f) { ctx.count("comment-scanner: input has a comment"); }
+    if let Some(i) = (0..scan.len()).find(|&i| scan[i] != lexer[i]) {
+        // not a violation of the property by itself: recorded so that the evidence shows whether the
+        // lexer's notion of comment (used by the oracle below) is the independent one
+        ctx.count("COMMENT-SCANNER-DISAGREES-WITH-LEXER");
+        eprintln!("c05: comment scanner and lexer disagree at byte {} of {input:?}", body_start + i);
+    }
+}
+
+/// Side conditions of the C05 theorems on the character tables, over ALL Unicode scalar values:
+/// `AlnumSpec` (a letter or digit is neither `char::is_whitespace` nor lexer whitespace and none of
+/// `> = \ LF CR -`) and `CommentSpec` (lexer whitespace and word characters contain none of `\ - [`).
+fn charspec_side_conditions(ctx: &mut Ctx) {
+    let mut bad: Option<(char, &str)> = None;
+    for cp in 0u32..=0x10FFFF {
+        let Some(c) = char::from_u32(cp) else { continue };
+        if !c.is_alphanumeric() { continue; }
+        if c.is_whitespace() || ">=\\\n\r-".contains(c) || crate::chartable::class_bits(c) & 1 != 0 { bad = Some((c, "AlnumSpec")); break; }
+    }
+    for c in ['\\', '-', '['] { if crate::chartable::class_bits(c) & 5 != 0 { bad = Some((c, "CommentSpec")); } }
+    match bad {
+        None => ctx.count("charspec side conditions (AlnumSpec, CommentSpec) hold for all scalar values"),
+        Some((c, which)) => { ctx.count("CHARSPEC-SIDE-CONDITION-VIOLATED"); eprintln!("c05: {which} fails for {c:?}: the C05 theorems do not apply to this character table"); }
+    }
+}
+
 pub fn run(ctx: &mut Ctx) {
-    ctx.rule = "inputs as C04 (corpus, exhaustive short token strings, soups, structured recipes, mutations) plus fence-shaped lines at every line position; all 256 extension patterns; for inputs whose event stream has no error event: every alphanumeric char outside comment tokens must lie in the span of a text/ingredient/cookware/timer/metadata/section/front-matter event; events are also compared with the model. non-trivial = more than Start/End events".into();
+    charspec_side_conditions(ctx);
+    ctx.rule = "inputs as C04 (corpus, exhaustive short token strings, soups, structured recipes, mutations) plus fence-shaped lines at every line position and comment-shaped soups (backslash, -, [, ], LF, CR, …); all 256 extension patterns; for inputs whose event stream has no error event: every alphanumeric char not flagged by the independent character-level comment scanner (compared with the lexer's comment tokens on every case) must lie in the span of a text/ingredient/cookware/timer/metadata/section/front-matter event; events are also compared with the model. non-trivial = more than Start/End events".into();
     crate::props::c04::inputs(ctx, 0xC05, &mut |ctx, s, e| one(ctx, s, e));
     let mut rng = crate::rng::Rng::new(ctx.seed ^ 0xC05F);
     let n = if ctx.thorough { 100_000 } else { 4_000 };
@@ -45,5 +118,14 @@ pub fn run(ctx: &mut Ctx) {
         let mut lines: Vec<String> = (0..1 + rng.below(6)).map(|_| match rng.below(4) { 0 => "---".to_string(), 1 => crate::gen::word(&mut rng), 2 => String::new(), _ => crate::gen::step(&mut rng) }).collect();
         if rng.chance(1, 3) { lines.insert(0, String::new()); }
         one(ctx, &lines.join("\n"), crate::gen::ext_pattern(i % 256));
+    }
+    // comment-shaped soups: escapes before `--` / `[-`, unclosed and `[-]` block comments, comments before a line
+    // feed, CRLF — what the independent comment scanner and the lexer must agree on
+    let mut rng = crate::rng::Rng::new(ctx.seed ^ 0xC05C);
+    let n = if ctx.thorough { 100_000 } else { 3_000 };
+    for i in 0..n {
+        let len = 1 + rng.below(9);
+        let s: String = (0..len).map(|_| *rng.pick(&['\\', '-', '-', '[', ']', '\n', '\r', 'a', '1', ' ', '@', '{', '}', '>', ':', 'é'])).collect();
+        one(ctx, &s, crate::gen::ext_pattern(i % 256));
     }
 }
